@@ -124,7 +124,11 @@ def gen_case(rng, tier, kind=None):
             if r < 0.7:
                 rs = np.random.RandomState(rng.getrandbits(32))
                 idx = rs.choice(n, size=k, replace=False)
-                init = L(sig6(X[idx] + rs.randn(k, d) * 0.05 * (X.std(axis=0) + 1e-9)))
+                init = sig6(X[idx] + rs.randn(k, d) * 0.05 * (X.std(axis=0) + 1e-9))
+                if k > 1 and rng.random() < 0.08:
+                    # a centroid far from all data: its cluster stays empty
+                    init[-1] = init[-1] + 1e3 * (np.abs(X).max() + 1.0)
+                init = L(init)
             elif r < 0.88:
                 init = "random"
             else:
